@@ -85,9 +85,9 @@ def repair_num(x):
 # hazards of the findings that are still open (F-C17c..g are fixed: nothing of them is repaired, classified or suppressed); F-C17c (917b518), F-C17d (d511a4f) and F-C17e (86ebd6a) are fixed: nothing is repaired or
 # suppressed for them, a recurrence is a plain VIOLATION
 # F-C17h (request body without "attrs": null dereference) is fixed by a049be8: the driver still tags such a crash (grouping), nothing is classified
-# F-C17j: the deactivation of a DEPENDENT is answered by an exception in the middle of a cascade (delete line `… 1 thr=<other object>`)
+# F-C17j (cascade went on after the deletion of a dependent was aborted) is fixed by 0ce9ca7: nothing is repaired or classified for it
 # F-C17k (rolled-back Service left in its host's service map) has its own classifier: _rolled_back_service
-HAZ = {"F-C17a": "num", "F-C17b": "nul", "F-C17i": "start", "F-C17j": "thrdep"}
+HAZ = {"F-C17a": "num", "F-C17b": "nul", "F-C17i": "start"}
 BAD_LOG_DIR = b"/nonexistent-c17/"
 
 
@@ -113,7 +113,7 @@ class C17(StdCheck):
                          "emit_parse_roundtrip_witness", "lexer_keyword_key_roundtrip", "lexer_keywords_known_to_writer", "bare_key_is_identifier_witness",
                          "create_all_or_nothing_partial", "activate_exception_counterexample", "rolled_back_service_resolvable_counterexample",
                          "delete_removes_object_and_file", "deleted_service_unresolvable_regression", "cyclic_cascade_delete_regression", "refuse_non_api", "cascade_only_when_asked", "unique_names",
-                         "delete_only_removes", "cascade_removes_children", "cascade_removes_children_partial", "cascade_aborted_dependent_counterexample",
+                         "delete_only_removes", "cascade_removes_children", "cascade_success_complete", "failed_delete_keeps_target", "cascade_aborted_dependent_regression",
                          "aborted_delete_then_retry", "items_owned_invariant", "create_all_or_nothing_reachable", "generated_children_not_runtime",
                          "cascade_only_dependents", "noncascading_delete_meets_spec", "aborted_delete_meets_spec", "noncascading_delete_meets_spec_along_run",
                          "escapeName_injective", "confPath_injective", "confPath_in_type_dir"]
@@ -131,9 +131,10 @@ class C17(StdCheck):
                   "item and file - for every state and whatever deactivation the environment answers with an exception (the catch block of DeleteObjectHelper is "
                   "modelled: fault thr, deactivateObj); delete refuses non-API objects, removes nothing else without "
                   "cascade, only ever removes (names, items, files afterwards are sub-lists of those before, every remaining object is the one it was, at most "
-                  "deactivated; cycles and aborted deletions included), and a cascading "
-                  "delete whose own deactivation does not fail succeeds and removes every direct dependent except one whose deactivation fails "
-                  "(cascade_removes_children_partial; the exception is F-C17j, cascade_aborted_dependent_counterexample, reproduced on the real code; the transitive "
+                  "deactivated; cycles and aborted deletions included); the loop over the dependents passes a dependent's failure on (0ce9ca7, model deleteChildren): a cascade "
+                  "that reports success has removed the object and every direct dependent, whatever fault occurred (cascade_success_complete, no exception any more: F-C17j is fixed, "
+                  "cascade_aborted_dependent_regression), without a fault it always succeeds (cascade_removes_children), and a delete that reports failure - refused or aborted in the "
+                  "object or in any dependent - has kept the object (failed_delete_keeps_target, all states, graphs and faults; the transitive "
                   "closure is demanded of the implementation's trace by spec clause cascade_complete, not proved of the model); a deletion aborted by an exception "
                   "leaves the object whole and the next delete of it succeeds and removes object, item and file (aborted_delete_then_retry, all states); whatever a delete "
                   "removes is the object or something that depends on it through the reflexive-transitive closure of the dependency edges (cascade_only_dependents, all states, "
@@ -160,8 +161,7 @@ class C17(StdCheck):
                   "nearest-binary64), the outcome of compile/commit/activate is an oracle input (fault injection in the model; a failed call that "
                   "left the object behind is replayed as the fault activateThrows; which deactivation throws during a delete is chosen by the generator and "
                   "replayed in the model as thr). The open findings F-C17a (number precision), F-C17b (NUL), "
-                  "F-C17i (Start() throws: committed object left behind), F-C17j (cascade reports success although the deletion of a dependent was aborted; "
-                  "classified only for clause cascade_complete on the faulted cascading delete itself) and F-C17k (a Service rolled back by the name check stays in its "
+                  "F-C17i (Start() throws: committed object left behind) and F-C17k (a Service rolled back by the name check stays in its "
                   "host's service map: classified only for clause dangling_parent after a failed create of a Service with a surplus name part) are reported as KNOWN-FINDING by a classifier that repairs the recorded hazard in the "
                   "minimised witness and re-runs it: only failures that vanish after the repair are attributed to the finding; the driver tags the "
                   "clause with the hazards present in the failing line so that a known hazard cannot use up the per-clause shrink budget of an "
@@ -199,11 +199,6 @@ class C17(StdCheck):
         w = line.split(" | ")[0].split()
         if len(w) > 2 and w[0] == "X":      # the operation the worker died in
             w = w[2:]
-        if len(w) >= 5 and w[0] == "delete" and w[-1].startswith("thr="):
-            # F-C17j: the same cascading delete without the fault in a dependent (a fault in the target itself is not repaired)
-            if w[3] == "1" and w[-1][4:] != w[1] + ":" + w[2]:
-                return " ".join(w[:-1]), {"thrdep"}
-            return " ".join(w), set()
         if len(w) not in (6, 7) or w[0] != "create":
             return " ".join(w), set()
         found = set()
@@ -282,10 +277,6 @@ class C17(StdCheck):
             return base == "dangling_parent" and self._rolled_back_service(lines)
         haz = HAZ.get(entry["id"])
         if not haz:
-            return False
-        if entry["id"] == "F-C17j" and not (base == "cascade_complete" and "+thrdep" in m.group(2)):
-            # only the faulted cascading delete ITSELF reporting success with a dependent left behind; whatever goes wrong
-            # in a later call (e.g. a retry which removes nothing) is not this finding
             return False
         fixed, present = [], set()
         for l in lines:
